@@ -104,7 +104,7 @@ def breit_wigner(s, m0, w0):
     return m0 * w0 / (m0**2 - s - 1j * m0 * w0)
 
 
-def run_case(desc) -> Result:  # noqa: C901, PLR0911, PLR0912, PLR0914, PLR0915
+def _run_case(desc, flags) -> Result:  # noqa: C901, PLR0911, PLR0912, PLR0914, PLR0915
     rdesc, cfg = desc["reaction"], desc["config"]
     config = dict(DEFAULT_CONFIG)
     config.update(
@@ -157,6 +157,15 @@ def run_case(desc) -> Result:  # noqa: C901, PLR0911, PLR0912, PLR0914, PLR0915
         labels.append("identical_particles")
     if ident_spinful_mixed:
         labels.append("identical_spinful_distinct_helicities")
+    max_ident_group = max((len(g) for t in reaction.transitions[:1] for g in ref.identical_groups(t)), default=1)
+    ident_ge3 = max_ident_group >= 3
+    if ident_ge3:
+        labels.append("identical_group_ge3")
+    ident_flags = {
+        "identical_spinful_distinct_helicities": ident_spinful_mixed,
+        "identical_group_ge3": ident_ge3,
+    }
+    flags.update(ident_flags)
 
     groups: dict[tuple, list[int]] = {}
     for idx, (s, _) in enumerate(terms):
@@ -180,13 +189,11 @@ def run_case(desc) -> Result:  # noqa: C901, PLR0911, PLR0912, PLR0914, PLR0915
         comp_names.append(name)
     missing = sorted({n for n in comp_names if n not in model.components})
     if missing:
-        return violation("component_missing", nontrivial, labels, names=missing[:3], n_missing=len(missing),
-                         identical_spinful_distinct_helicities=ident_spinful_mixed)
+        return violation("component_missing", nontrivial, labels, names=missing[:3], n_missing=len(missing), **ident_flags)
     n_a_components = len([k for k in model.components if k.startswith("A_")])
     if n_a_components != len(set(comp_names)):
         return violation(
-            "number_of_chain_components", nontrivial, labels, got=n_a_components, want=len(set(comp_names)),
-            identical_spinful_distinct_helicities=ident_spinful_mixed,
+            "number_of_chain_components", nontrivial, labels, got=n_a_components, want=len(set(comp_names)), **ident_flags
         )
     comp_exprs = [model.components[n] for n in comp_names]
     unfolded = under_test("doit", lambda: [e.doit() for e in [expression, *comp_exprs]])
@@ -202,6 +209,13 @@ def run_case(desc) -> Result:  # noqa: C901, PLR0911, PLR0912, PLR0914, PLR0915
     model_intensity = out[0]
     model_components = out[1:]
     by_name = {s.name: values[s] for s in symbols}
+    # angle symbols that dropped out of the model (e.g. D^0_00 = 1) still get a value
+    needed = set()
+    for s_, _ in terms:
+        for node in s_.topology.nodes:
+            needed.update(ref.angle_names(s_.topology, ref.children_of(s_.topology, node)[0]))
+    for name in sorted(needed - set(by_name)):
+        by_name[name] = draw_values([sp.Symbol(name)], rng, n_points)[sp.Symbol(name)]
 
     # ---- reference ---------------------------------------------------------------------------
     def point_values(k):
@@ -245,28 +259,35 @@ def run_case(desc) -> Result:  # noqa: C901, PLR0911, PLR0912, PLR0914, PLR0915
                     shape *= breit_wigner(m_inv**2, m0, w0)
             ref_terms[idx, k] = c * b * shape
 
-    # (a) component level: ratio is a constant sign
+    # (a) component level.  Symmetrized copies of a chain share one component name (names do
+    # not contain edge ids): the named component must equal (up to the sign, if the chain has a
+    # parity-conserving node) one of the chains that carry its name.
     signs = np.ones(len(terms))
-    for idx, (s, _) in enumerate(terms):
-        got = model_components[idx]
-        want = ref_terms[idx]
-        scale = np.maximum(1.0, np.abs(want))
-        plus = np.all(np.abs(got - want) <= TOL * scale)
-        minus = np.all(np.abs(got + want) <= TOL * scale)
-        has_pc = any(i.parity_prefactor is not None for i in s.interactions.values())
-        if plus:
-            signs[idx] = 1.0
-        elif minus and has_pc:
-            signs[idx] = -1.0
-        else:
+    name_groups: dict[str, list[int]] = {}
+    for idx, name in enumerate(comp_names):
+        name_groups.setdefault(name, []).append(idx)
+    for name, members in name_groups.items():
+        got = model_components[members[0]]
+        has_pc = any(i.parity_prefactor is not None for i in terms[members[0]][0].interactions.values())
+        matched = None
+        for idx in members:
+            want = ref_terms[idx]
+            scale = np.maximum(1.0, np.abs(want))
+            if np.all(np.abs(got - want) <= TOL * scale):
+                matched = 1.0
+                break
+            if np.all(np.abs(got + want) <= TOL * scale):
+                matched = -1.0
+                break
+        if matched is None or (matched < 0 and not has_pc):
+            want = ref_terms[members[0]]
             return violation(
-                "chain_amplitude_differs" if not minus else "unexpected_sign_without_parity_node",
-                nontrivial, labels, component=comp_names[idx],
+                "chain_amplitude_differs" if matched is None else "unexpected_sign_without_parity_node",
+                nontrivial, labels, component=name, n_chains_with_this_name=len(members),
                 got=[complex(x) for x in got], want=[complex(x) for x in want],
-                max_abs_want=float(np.max(np.abs(want))),
             )
-        if np.max(np.abs(want)) < 1e-12 and not minus:
-            pass
+        for idx in members:
+            signs[idx] = matched
 
     # (b) intensity level
     ref_intensity = np.zeros(n_points)
@@ -279,8 +300,7 @@ def run_case(desc) -> Result:  # noqa: C901, PLR0911, PLR0912, PLR0914, PLR0915
     err = np.abs(model_intensity - ref_intensity)
     if not np.all(err <= 1e-8 * scale):
         return violation(
-            "intensity_differs_from_helicity_formula", nontrivial, labels,
-            identical_spinful_distinct_helicities=ident_spinful_mixed,
+            "intensity_differs_from_helicity_formula", nontrivial, labels, **ident_flags,
             got=[complex(x) for x in model_intensity], want=[float(x) for x in ref_intensity],
             n_groups=len(groups), n_terms=len(terms),
         )
@@ -319,6 +339,21 @@ def run_case(desc) -> Result:  # noqa: C901, PLR0911, PLR0912, PLR0914, PLR0915
         nontrivial, labels, n_terms=len(terms), n_groups=len(groups), max_coherent=max_coherent,
         intensity=[float(x) for x in ref_intensity],
     )
+
+
+def run_case(desc) -> Result:
+    """All failures of a reaction whose identical-particle symmetrisation is known to be
+    wrong are reported under one kind (with the structural flags the findings match on)."""
+    flags: dict = {}
+    res = _run_case(desc, flags)
+    if res.status == "violation" and (
+        flags.get("identical_spinful_distinct_helicities") or flags.get("identical_group_ge3")
+    ):
+        detail = dict(res.detail)
+        detail.update(flags)
+        detail["first_failing_clause"] = res.kind
+        return Result("violation", res.nontrivial, res.labels, "symmetrisation_of_identical_particles", detail)
+    return res
 
 
 def _power_of(expr, symbol) -> int:
